@@ -183,6 +183,75 @@ def _thrown_exception(typ, val=None, tb=None):
     return val.with_traceback(tb) if tb is not None else val
 
 
+class _Delegation:
+    """Delegate to an iterator while the function's handlers are suspended.
+
+    The transformed code replaces ``yield from x`` by ``yield from
+    _Delegation(proc, x)``. This is equivalent, except that
+    ``proc.suspend()`` is called each time a value of the iterator travels
+    out to the caller of the generator and ``proc.resume()`` when the
+    generator is resumed, as for a plain ``yield``.
+    """
+
+    __slots__ = ("proc", "iterator", "suspended", "on_yield", "on_receive")
+
+    def __init__(self, proc, iterable, on_yield=None, on_receive=None):
+        self.proc = proc
+        self.iterator = iter(iterable)
+        self.suspended = False
+        # Interactions for #yield and #receive, if they are instrumented
+        self.on_yield = on_yield
+        self.on_receive = on_receive
+
+    _switch = _Suspension._switch
+
+    def _resumed(self):
+        if self.suspended:
+            self.suspended = False
+            self._switch("resume")
+
+    def _yielded(self, value):
+        if self.on_yield is not None:
+            value = self.on_yield(value)
+        self.suspended = True
+        self._switch("suspend")
+        return value
+
+    def __iter__(self):
+        return self
+
+    def __next__(self):
+        return self.send(None)
+
+    def send(self, value):
+        if self.suspended:
+            self._resumed()
+            if self.on_receive is not None:
+                value = self.on_receive(value)
+        if value is None:
+            return self._yielded(next(self.iterator))
+        return self._yielded(self.iterator.send(value))
+
+    def throw(self, typ, val=None, tb=None):
+        self._resumed()
+        throw = getattr(self.iterator, "throw", None)
+        if throw is None:
+            # The exception is raised where the generator delegates
+            close = getattr(self.iterator, "close", None)
+            if close is not None:
+                close()
+            raise _thrown_exception(typ, val, tb)
+        if val is None and tb is None:
+            return self._yielded(throw(typ))
+        return self._yielded(throw(typ, val, tb))
+
+    def close(self):
+        self._resumed()
+        close = getattr(self.iterator, "close", None)
+        if close is not None:
+            close()
+
+
 class _NestedScopeReads(NodeVisitor):
     """Collect the names that a nested function or lambda reads from outside.
 
@@ -1163,6 +1232,39 @@ class PteraTransformer(NodeTransformer):
         )
         return ast.copy_location(new_yield, node)
 
+    def visit_YieldFrom(self, node):
+        def interaction(varname, tag):
+            # lambda value: <interaction>, or None if not instrumented
+            if not self.should_instrument(varname, tag):
+                return ast.Constant(value=None)
+            arg = _gensym()
+            return ast.Lambda(
+                args=ast.arguments(
+                    posonlyargs=[],
+                    args=[ast.arg(arg=arg)],
+                    kwonlyargs=[],
+                    kw_defaults=[],
+                    defaults=[],
+                ),
+                body=self._interact(
+                    varname, None, tag, ast.Name(id=arg, ctx=ast.Load()), True
+                ),
+            )
+
+        new_yield = ast.YieldFrom(
+            value=ast.Call(
+                func=self._get("Delegation"),
+                args=[
+                    self._get("proc"),
+                    self.visit(node.value),
+                    interaction("#yield", self._get("exit_tag")),
+                    interaction("#receive", self._get("enter_tag")),
+                ],
+                keywords=[],
+            )
+        )
+        return ast.copy_location(new_yield, node)
+
 
 class _Conformer:
     """Implements codefind's __conform__ protocol.
@@ -1399,6 +1501,7 @@ def transform(fn, proceed, to_instrument=True, set_conformer=True):
         "frame": ("__ptera_frame", None),
         "proc": ("__ptera_proc", None),
         "Suspension": ("__ptera_Suspension", _Suspension),
+        "Delegation": ("__ptera_Delegation", _Delegation),
         "enter_tag": ("__ptera_enter_tag", enter_tag),
         "exit_tag": ("__ptera_exit_tag", exit_tag),
     }
